@@ -49,15 +49,14 @@ func (rt *runtime) cmplEvaluateNodeExpression(node nodeExpression) Value {
 		return rt.cmplEvaluateNodeDotExpression(node)
 
 	case *nodeFunctionLiteral:
-		local := rt.scope.lexical
-		if node.name != "" {
-			local = rt.newDeclarationStash(local)
+		if node.name == "" {
+			return objectValue(rt.newNodeFunction(node, rt.scope.lexical))
 		}
-
+		// 13: a named function expression is closed over a new environment whose
+		// only binding is its own name, and that binding is immutable.
+		local := rt.newDeclarationStash(rt.scope.lexical)
 		value := objectValue(rt.newNodeFunction(node, local))
-		if node.name != "" {
-			local.createBinding(node.name, false, value)
-		}
+		local.property[node.name] = dclProperty{value: value, mutable: false, deletable: false, readable: true}
 		return value
 
 	case *nodeIdentifier:
